@@ -26,6 +26,8 @@ def cells(tier):
         out.append(cell(f"s{size} A3 cancel0 flush slowccb0 ret/exc", sc, MON))
     sc = scen(pool(2), [[A("A", 2)], [cancel(rid("A", 0))], [FLUSH], [["cancel_op", 2]]], outcomes=["ret"], ecb="slow", ccb="slow", slow_ids=[0])
     out.append(cell("s2 A2 cancel0 flush flush-caller-cancelled slowcbs", sc, MON))
+    sc = scen(pool(2), [[A("A", 2, worker="instant")], [cancel(rid("A", 1))], [FLUSH]], outcomes=["ret"], ecb="slow", ccb="plain", slow_ids=[0, 1])
+    out.append(cell("s2 A2 instant cancel1 flush slowecb", sc, MON))
     # absorbing workers: a cancelled coroutine that swallows the cancellation ends normally
     for size in [2]:
         sc = scen(pool(size), [[A("A", 2, worker="absorb")], [cancel(rid("A", 0))], [cancel(rid("A", 1))]],
